@@ -43,12 +43,14 @@ func c04FamilyHung(kind string) bool {
 	if err != nil {
 		return false
 	}
+	// two time-outs in the family: one may be the machine, not the program
+	n := 0
 	for _, l := range strings.Split(string(b), "\n") {
 		if l == kind {
-			return true
+			n++
 		}
 	}
-	return false
+	return n >= 2
 }
 
 // c04Run runs one case; when it exceeds the limit the family is recorded and the goroutine blocks,
@@ -74,7 +76,7 @@ func c04Run(payload string) string {
 				ch <- res{"", e}
 			}
 		}()
-		ch <- res{c04StripPos(evRunFull(payload)), nil}
+		ch <- res{evRunFull(payload), nil}
 	}()
 	select {
 	case r := <-ch:
@@ -285,7 +287,7 @@ func (g *c04Rand) stmt(d int) string {
 }
 func (g *c04Rand) program(depth int) string {
 	g.mk, g.loops, g.inFunc, g.nfun, g.cnt = 0, 0, false, 0, 0
-	return "v := 1\nl := [1]\nm := {\"b\": 2, \"a\": 1, \"c\": 3}\nm2 := {2: 1, 10: 2, \"x\": 3}\n" + g.stmts(depth) + "\nv"
+	return "v := 1\nl := [1]\nm := {\"b\": 2, \"a\": 1, \"C\": 3, \"\": 4}\nm2 := {2: 1, 10: 2, \"x\": 3, \"X\": 4}\n" + g.stmts(depth) + "\nv"
 }
 
 func init() {
@@ -304,7 +306,38 @@ func init() {
 					lz.Emit(func() string { return "skip" })
 					return
 				}
-				lz.Emit(func() string { c04Family = kind; return evPayload(src) })
+				lz.Emit(func() string {
+					c04Family = kind
+					p := evPayload(src)
+					// every generated program is meant to parse; a program of a declared may-not-parse family
+					// that does not parse is marked so (the model answers NOPARSE only for those)
+					if strings.HasSuffix(p, " !") && strings.HasPrefix(kind, "may not parse") {
+						p += "expected"
+					}
+					return p
+				})
+			}
+			// a case with a second READING of the property: the model evaluates both programs, Go may agree
+			// with either (result line attribute spec=)
+			emit2 := func(kind, src, altSrc string) {
+				g.Count(kind)
+				if c04FamilyHung(kind) {
+					g.Count("skipped after a HANG in the family")
+					lz.Emit(func() string { return "skip" })
+					return
+				}
+				lz.Emit(func() string { c04Family = kind; return evPayload(src) + " @@ " + evPayload(altSrc) })
+			}
+			// a case on which the code as it is deviates from the property in a KNOWN way: the model evaluates the
+			// program as it is (result) and the program that says what the property demands (spec=); kf=<id>
+			emitKF := func(kind, id, src, specSrc string) {
+				g.Count(kind)
+				if c04FamilyHung(kind) {
+					g.Count("skipped after a HANG in the family")
+					lz.Emit(func() string { return "skip" })
+					return
+				}
+				lz.Emit(func() string { c04Family = kind; return evPayload(src) + " @kf:" + id + "@ " + evPayload(specSrc) })
 			}
 			// (0) corpus: inputs of the repaired defects and directed cases
 			for _, s := range []string{
@@ -361,7 +394,9 @@ func init() {
 			// fractional steps that are not exact in binary: the elements are those of repeated float addition
 			// (0, 0.1, 0.2, 0.30000000000000004): the end is delivered only if the accumulation hits it
 			for _, r := range []string{"range(0, 0.3, 0.1)", "range(0, 1, 0.1)", "range(1, 0, -0.1)", "range(0, 0.6, 0.2)", "range(0.1, 0.5, 0.1)", "range(0, 2, 0.7)"} {
-				emit("range family, inexact fractional step", "for i in "+r+" {\nx.mark(i)\n}\nx.mark(99)")
+				// the rounding of one particular evaluation order is not part of the property: the elements are
+				// marked rounded to three decimals
+				emit("range family, inexact fractional step", "for i in "+r+" {\nx.mark((i * 1000 + 0.5) // 1)\n}\nx.mark(99)")
 			}
 			rangeLoop := func(a, b int, st string) string {
 				return fmt.Sprintf("for i in range(%d, %d%s) {\nx.mark(i)\n}", a, b, st)
@@ -389,7 +424,8 @@ func init() {
 					emit("if family", fmt.Sprintf("if %s {\nx.mark(1)\n} elif %s {\nx.mark(2)\n}\nx.mark(4)", c1, c2))
 				}
 			}
-			for _, it := range []string{"[1, 2, 3]", "[]", `{"b": 1, "a": 2}`, "{}", "5", "null", `"ab"`, "[[1, 2], [3, 4]]", `{2: "x", 10: "y", 1: "z"}`} {
+			for _, it := range []string{"[1, 2, 3]", "[]", `{"b": 1, "a": 2}`, "{}", "5", "null", `"ab"`, "[[1, 2], [3, 4]]", `{2: "x", 10: "y", 1: "z"}`,
+				`{"B": 1, "a": 2, "C": 3}`, `{"a": 1, "ab": 2, "B": 3, "": 4, "Z": 5, "é": 6, "A": 7}`, `{"10": 1, "9": 2, "1": 3, "a1": 4, "A1": 5}`} {
 				it = "m\n"[:0] + it
 				pre := "m := " + it + "\n"
 				it = "m"
@@ -592,10 +628,10 @@ func init() {
 				"try {\nq := range(3)\nx.mark(q)\n} except as e {\nx.mark(e.type)\n}",
 				"try {\nq := range(3)\n} except \"Function is an iterator\" {\nx.mark(1)\n} otherwise {\nx.mark(2)\n}",
 				"for k in [1, 2, 3] {\ntry {\nx.mark(range(5))\n} except {\nx.mark(k)\n}\n}",
-				"l := [1, 2, 3]\nfor i in l {\nx.mark(i)\nl[2] := 9\n}\nx.mark(l)",
+				"#ALT l := [1, 2, 3]\nfor i in l {\nx.mark(i)\nl[2] := 9\n}\nx.mark(l)",
 				"l := [1, 2, 3]\nfor i in l {\nx.mark(i)\nl := add(l, 4)\n}\nx.mark(l)",
 				"l := [1, 2, 3]\nfor i in l {\nx.mark(i)\nl := del(l, 0)\n}\nx.mark(l)",
-				"l := [1, 2, 3]\nfor i in l {\nx.mark(i)\nl[0] := 7\nif i == 2 {\nl := []\n}\n}\nx.mark(l)",
+				"#ALT l := [1, 2, 3]\nfor i in l {\nx.mark(i)\nl[0] := 7\nif i == 2 {\nl := []\n}\n}\nx.mark(l)",
 				"m := {\"a\": 1, \"b\": 2}\nfor [k, v] in m {\nx.mark(k)\nx.mark(v)\nm.b := 5\nm.c := 6\n}\nx.mark(m)",
 				"l := [1]\nfor a.b in l {\nx.mark(1)\n}",
 				"l := [[1, 2]]\nfor [a, b.c] in l {\nx.mark(1)\n}",
@@ -605,7 +641,73 @@ func init() {
 				"try {\nraise({\"a\": 1}, 5, 6)\n} except as e {\nx.mark(e.type)\nx.mark(e.detail)\nx.mark(e.data)\n}",
 				"func b() {\nbreak\n}\nfor i in [1, 2, 3] {\nx.mark(i)\nb()\nx.mark(5)\n}\nx.mark(9)",
 			} {
+				if strings.HasPrefix(pr, "#ALT ") {
+					// a loop that writes the list it iterates: "once per element" does not say whether the elements
+					// are read live or from a copy taken at loop start — both readings are accepted
+					pr = pr[5:]
+					emit2("directed: loop writes the list it iterates (live or snapshot reading)", pr+"\nx.mark(98)\n99",
+						strings.Replace(pr, "for i in l {", "for i in concat(l, []) {", 1)+"\nx.mark(98)\n99")
+					continue
+				}
 				emit("directed control-flow cases", pr+"\nx.mark(98)\n99")
+			}
+			// (3g) raised type x listed type, as TEXTS: equal, different only by case, prefix / extension of each
+			// other, empty, with a format verb, a quote, markers of interpolation (raw), non-ASCII, trailing space
+			typeTexts := []string{`"E1"`, `"e1"`, `"E"`, `"E10"`, `""`, `"100%"`, `"%d%s"`, `"é"`, `"E1 "`, `'a"b'`, `r"{{x}}"`, `"E{{1}}"`}
+			for _, rt := range typeTexts {
+				for _, lt := range typeTexts {
+					pre := "x.mark(1)\n"
+					emit("raised type text x listed type text", pre+c04Try("raise("+rt+", "+rt+", "+rt+")", []string{lt, "as e"}, "", "", "x.mark(42)")+"\nx.mark(98)\n99")
+					emit("raised type text x listed type text", pre+c04Try("raise("+rt+")", []string{lt + " as e", `"zz", ` + lt, ""}, "", "x.mark(32)", "")+"\nx.mark(98)\n99")
+					emit("raised type text x listed type text", pre+c04Try("raise("+rt+", \"d%v\")", []string{`"q", ` + lt + ` e`}, "", "", "")+"\nx.mark(98)\n99")
+				}
+			}
+			// (3h) clauses listing three and more types; orders of the clauses
+			for _, rt := range []string{"a", "b", "c", "d", "zz"} {
+				emit("several listed types", "try {\nraise(\""+rt+"\")\n} except \"a\", \"b\", \"c\" {\nx.mark(1)\n} except \"d\", \"e\", \"f\", \"zz\" as e {\nx.mark(e.type)\n}\nx.mark(98)\n99")
+				emit("several listed types", "try {\nraise(\""+rt+"\")\n} except \"x\", \"y\", \"b\", \"c\" e {\nx.mark(2)\n} except \"a\" {\nx.mark(3)\n} otherwise {\nx.mark(4)\n} finally {\nx.mark(5)\n}\nx.mark(98)\n99")
+			}
+			for _, pr := range []string{
+				"try {\nraise(\"c\")\n} except \"a\" \"b\" {\nx.mark(1)\n}",
+				"try {\nraise(\"c\")\n} except \"a\", {\nx.mark(1)\n}",
+				"try {\nraise(\"c\")\n} except \"a\", \"b\", {\nx.mark(1)\n}",
+				"try {\nx.mark(1)\n} finally {\nx.mark(2)\n} otherwise {\nx.mark(3)\n}",
+				"try {\nx.mark(1)\n} otherwise {\nx.mark(3)\n} except {\nx.mark(2)\n}",
+				"try {\nx.mark(1)\n} finally {\nx.mark(2)\n} except {\nx.mark(3)\n}",
+				"try {\nx.mark(1)\n} otherwise {\nx.mark(2)\n} otherwise {\nx.mark(3)\n}",
+				"try {\nx.mark(1)\n} finally {\nx.mark(2)\n} finally {\nx.mark(3)\n}",
+				"try {\nx.mark(1)\n}",
+				"try {\nx.mark(1)\n} except as {\nx.mark(2)\n}",
+				"try {\nraise(\"a\")\n} except \"a\" as e f {\nx.mark(2)\n}",
+				"if true {\nx.mark(1)\n} else {\nx.mark(2)\n} elif false {\nx.mark(3)\n}",
+				"for {\nx.mark(1)\n}",
+				"break 1",
+			} {
+				emit("may not parse: clause orders and malformed clause heads", pr+"\nx.mark(98)\n99")
+			}
+			// (3i-kf) an iterator returned by a FUNCTION: the loop calls the function again every round, the range
+			// starts afresh inside it and the variable is bound to the call's result (nil): the loop never ends by
+			// itself (bounded here by a counter). The property wants one round per element of the range.
+			for _, rb := range []struct{ decl, call, direct string }{
+				{"func r() {\nreturn range(1, 2)\n}\n", "r()", "range(1, 2)"},
+				{"func r() {\nrange(1, 2)\n}\n", "r()", "range(1, 2)"},
+				{"func r(n) {\nreturn range(n)\n}\n", "r(3)", "range(3)"},
+				{"func r(a, b) {\nreturn range(a, b, -1)\n}\n", "r(3, 1)", "range(3, 1, -1)"},
+			} {
+				loop := func(it string) string {
+					return rb.decl + "c := 0\nfor i in " + it + " {\nc := c + 1\nx.mark(i)\nif c > 4 {\nbreak\n}\n}\nx.mark(98)\n99"
+				}
+				emitKF("known finding: iterator returned by a function", "iterator-returned-by-function", loop(rb.call), loop(rb.direct))
+			}
+			// (3i) an iterator signal that crosses a call or an operator: the loop variable is bound to the RESULT
+			// of the iterable (nil), not to the iterator's current value
+			for _, pr := range []string{
+				"c := 0\nfor i in range(3) + 1 {\nc := c + 1\nx.mark(i)\nif c > 5 {\nbreak\n}\n}",
+				"c := 0\nfor i in not range(1, 2) {\nc := c + 1\nx.mark(i)\nif c > 5 {\nbreak\n}\n}",
+				"for [a] in [[1], [2]] {\nx.mark(a)\n}",
+				"for [a] in [1, 2] {\nx.mark(a)\n}",
+			} {
+				emit("iterator signal through a call or operator; one-variable destructuring", pr+"\nx.mark(98)\n99")
 			}
 			// (4) random nestings
 			n := 3000
